@@ -188,8 +188,7 @@ reg(Alg("cbldm", "partition", lambda: prt.cbldm, op="cbldm", param="k",
         pre=_install_clock("prtpy.partitioning.cbldm"),
         unmodelled=lambda case, fmt: case["p"]["k"] != 2))      # argument validation is modelled separately (cbldm_validate, C19)
 
-reg(Alg("bin_completion", "pack", lambda: prtpy.packing.bin_completion,
-        unmodelled=lambda case, fmt: fmt not in ("list", "array")))     # the model is for names = values; named input (fix F15: search on the values, names put back) is judged by the verified checkers only
+reg(Alg("bin_completion", "pack", lambda: prtpy.packing.bin_completion))     # named input too: BC.binCompletionNamed (fix F15: search on the values, items put back)
 
 
 def multifit_float_divergence(case, ids):
